@@ -333,7 +333,7 @@ PROPS["C16"] = dict(
     bounds="card level: every card kind (43), list-like kinds (composite, closure, array, call, native call, "
            "dynamic call) at arities 0..=3, child index solver-chosen in 0..=6; module level: one concrete "
            "two-function skeleton nesting if-else > composite > add and call > not to depth 3, CardIndex "
-           "solver-chosen (function 0..=2, 1..=3 sub-indices each 0..=3), pairs of such indices for swap",
+           "with concrete function/depth per harness and solver-chosen sub-indices each 0..=3, pairs of such indices for swap",
     outside="trees deeper than 3, more than 3 list children, other skeleton shapes, the wasm bindings, "
             "sequences of more than two edits",
     explanation="For a solver-chosen child index / CardIndex the SAT solver decides that child count, both "
@@ -352,29 +352,442 @@ PROPS["C16"] = dict(
                "concrete (kinds, arities, skeleton), indices symbolic.",
     design_ref="DESIGN.md §3 C16",
     cap=dict(quick=600, thorough=2400),
-    harnesses=[H("c16", n, t, bounds=b) for (n, t, b) in [
-        ("c16_children_binary", "quick", "17 binary kinds: count/iter/get agree, index symbolic"),
-        ("c16_children_unary_ternary_misc", "quick", "unary, ternary, set-var, repeat, for-each kinds"),
+    harnesses=[H("c16", n, t, bounds=b, limits={
+        # drop glue of the recursive card type: cards in the harnesses nest at most 4 deep
+        r"^std::ptr::drop_in_place::<cao_lang::prelude::(Card|CardBody)>$": (4 if "module" in n else 2),
+        r"^std::ptr::drop_in_place::<(std::boxed::Box|std::vec::Vec)<.*cao_lang::prelude::Card.*>>$": (4 if "module" in n else 2),
+    }) for (n, t, b) in [
+        ("c16_children_bin_a", "quick", "Add..LessOrEq: count/iter/get agree, child index symbolic"),
+        ("c16_children_bin_b", "thorough", "Equals..GetProperty"),
+        ("c16_children_bin_c", "quick", "IfTrue, IfFalse, While, Get, AppendTable"),
+        ("c16_children_unary", "quick", "Not, Return, Len, PopTable"),
+        ("c16_children_ternary_setvar", "quick", "IfElse, SetProperty, SetGlobalVar, SetVar"),
+        ("c16_children_repeat_foreach", "quick", "Repeat, ForEach"),
         ("c16_children_leaves", "thorough", "10 leaf kinds"),
         ("c16_children_lists_a0", "thorough", "6 list-like kinds, arity 0"),
         ("c16_children_lists_a1", "thorough", "6 list-like kinds, arity 1"),
-        ("c16_children_lists_a3", "quick", "6 list-like kinds, arity 3"),
-        ("c16_replace_binary", "thorough", "replace_child on binary kinds"),
-        ("c16_replace_misc", "quick", "replace_child on unary..leaf kinds"),
-        ("c16_replace_lists_a2", "quick", "replace_child on list-like kinds, arity 2"),
-        ("c16_insert_remove_binary", "thorough", "insert_child (= replace) on binary kinds"),
-        ("c16_insert_remove_misc", "quick", "insert_child on unary..leaf kinds"),
-        ("c16_insert_remove_lists_a0", "thorough", "insert then remove on list-like kinds, arity 0"),
-        ("c16_insert_remove_lists_a2", "quick", "insert then remove on list-like kinds, arity 2"),
-        ("c16_remove_binary", "thorough", "remove_child on binary kinds"),
-        ("c16_remove_misc", "quick", "remove_child on unary..leaf kinds"),
+        ("c16_children_lists_a3", "quick", "Composite, Closure, Array, Call, CallNative, DynamicCall at arity 3"),
+        ("c16_replace_bin_c", "thorough", "replace_child twice on IfTrue..AppendTable"),
+        ("c16_replace_unary", "thorough", "replace_child twice on unary kinds"),
+        ("c16_replace_ternary_setvar", "quick", "replace_child twice on IfElse, SetProperty, SetGlobalVar, SetVar"),
+        ("c16_replace_repeat_foreach", "quick", "replace_child twice on Repeat, ForEach"),
+        ("c16_replace_lists_a2_x", "thorough", "replace_child twice on Composite, Closure, Array (arity 2)"),
+        ("c16_replace_lists_a2_y", "quick", "replace_child twice on Call, CallNative, DynamicCall (arity 2)"),
+        ("c16_insert_bin_a", "thorough", "insert_child (= replace) on Add..LessOrEq"),
+        ("c16_insert_unary", "thorough", "insert_child on unary kinds"),
+        ("c16_insert_ternary_setvar", "thorough", "insert_child on ternary / set-var kinds"),
+        ("c16_insert_repeat_foreach", "quick", "insert_child on Repeat, ForEach"),
+        ("c16_insert_leaves", "thorough", "insert_child on leaf kinds fails"),
+        ("c16_insert_lists_a0", "thorough", "insert then remove on list-like kinds, arity 0"),
+        ("c16_insert_lists_a2_x", "quick", "insert then remove on Composite, Closure, Array (arity 2)"),
+        ("c16_insert_lists_a2_y", "quick", "insert then remove on Call, CallNative, DynamicCall (arity 2)"),
+        ("c16_remove_bin_b", "thorough", "remove_child on Equals..GetProperty"),
+        ("c16_remove_unary", "thorough", "remove_child on unary kinds"),
+        ("c16_remove_ternary_setvar", "thorough", "remove_child on ternary / set-var kinds"),
+        ("c16_remove_repeat_foreach", "quick", "remove_child on Repeat, ForEach"),
         ("c16_remove_lists_a1", "thorough", "remove_child on list-like kinds, arity 1"),
-        ("c16_remove_lists_a3", "quick", "remove_child on list-like kinds, arity 3"),
-        ("c16_module_get", "quick", "get_card/get_card_mut resolve any index like the reference navigation"),
+        ("c16_remove_lists_a3_x", "thorough", "remove_child on Composite, Closure, Array (arity 3)"),
+        ("c16_remove_lists_a3_y", "quick", "remove_child on Call, CallNative, DynamicCall (arity 3)"),
+        ("c16_module_get_f0_d1", "thorough", "get_card: function 0, depth 1, sub-index symbolic"),
+        ("c16_module_get_f0_d2", "quick", "get_card: function 0, depth 2"),
+        ("c16_module_get_f0_d3", "quick", "get_card: function 0, depth 3"),
+        ("c16_module_get_f1_d3", "thorough", "get_card: function 1, depth 3"),
+        ("c16_module_get_f2_d1", "thorough", "get_card: missing function"),
         ("c16_module_walk", "quick", "walk_cards: every card once, index resolves to it"),
-        ("c16_module_replace", "quick", "replace_card twice = identity; invalid index is a no-op"),
-        ("c16_module_insert_remove", "quick", "insert_card then remove_card = identity; invalid index is a no-op"),
-        ("c16_module_remove", "quick", "remove_card returns the addressed card; invalid index is a no-op"),
-        ("c16_module_swap", "quick", "swap twice = identity; ancestor/invalid swaps fail and are no-ops"),
+        ("c16_module_replace_f0_d2", "thorough", "replace_card twice = identity (f0, depth 2)"),
+        ("c16_module_replace_f0_d3", "quick", "replace_card twice = identity (f0, depth 3)"),
+        ("c16_module_replace_f1_d2", "thorough", "replace_card twice = identity (f1, depth 2)"),
+        ("c16_module_insert_f0_d1", "quick", "insert_card then remove_card = identity (top level)"),
+        ("c16_module_insert_f0_d3", "quick", "insert_card/remove_card inside a composite / add (f0, depth 3)"),
+        ("c16_module_insert_f1_d2", "quick", "insert_card/remove_card in call arguments (f1, depth 2)"),
+        ("c16_module_insert_f1_d3", "thorough", "insert_card under Not (f1, depth 3)"),
+        ("c16_module_remove_f0_d2", "thorough", "remove_card (f0, depth 2)"),
+        ("c16_module_remove_f0_d3", "quick", "remove_card (f0, depth 3)"),
+        ("c16_module_remove_f1_d1", "thorough", "remove_card (f1, top level)"),
+        ("c16_module_swap_f0d1_f0d1", "quick", "swap two top-level cards of f0 (incl. a card with itself)"),
+        ("c16_module_swap_f0d2_f0d3", "quick", "swap depth-2 with depth-3 card (incl. ancestor/descendant)"),
+        ("c16_module_swap_f0d2_f1d2", "thorough", "swap across functions"),
+        ("c16_module_swap_f0d1_f0d2", "thorough", "swap top-level with its own child / a sibling's child"),
+    ]],
+)
+
+# --------------------------------------------------------------------------- VM-level common
+# Recursions that CBMC would otherwise unroll to the global bound: table equality/hash/order
+# re-enter the Value impls, error payloads nest, hash-map growth re-enters insert.
+_VM_REC = {
+    r"^<cao_lang::prelude::Value as std::cmp::PartialEq>::eq$": 0,
+    r"^<cao_lang::prelude::Value as std::cmp::PartialOrd>::partial_cmp$": 0,
+    r"^<cao_lang::prelude::Value as std::hash::Hash>::hash::<.*>$": 0,
+    r"^std::ptr::drop_in_place::<cao_lang::prelude::ExecutionErrorPayload>$": 0,
+    r"hash_map::CaoHashMap::<.*>::(grow|adjust_capacity)$": 0,
+}
+
+
+def _vm(mod, name, tier="quick", dispatches=6, **kw):
+    lim = dict(_VM_REC)
+    # error paths: every instruction arm inlines the trace-building closure (one lookup + clone per
+    # call frame); object comparison/hash/debug code is only reachable when an operand is an object
+    lim[r"vm::Vm::<.*>::_run::\{closure#0\}$#*"] = kw.pop("frames", 4) + 1
+    lim[r"^<smallvec::SmallVec<.*> as std::iter::Extend<.*>>::extend::<.*>$#*"] = 2
+    lim[r"^<smallvec::SmallVec<.*> as std::clone::Clone>::clone"] = 0
+    if not kw.pop("objects", False):
+        lim[r"^<cao_lang::vm::runtime::cao_lang_object::CaoLangObject as std::(cmp::PartialEq|cmp::PartialOrd|hash::Hash|fmt::Debug)>::\w+(::<.*>)?$#*"] = 1
+        lim[r"^<cao_lang::prelude::CaoLangTable as std::fmt::Debug>::fmt$#*"] = 1
+    lim[r"vm::Vm::<.*>::_run$#0"] = dispatches + 1
+    # HandleTable::default() zero-fills 16 handles
+    lim[r"SpecFill<cao_lang::prelude::Handle>>::spec_fill$#0"] = 18
+    lim.update(kw.pop("limits", {}))
+    kw.setdefault("stubbing", True)
+    return H(mod, name, tier, limits=lim, steps=dispatches, **kw)
+
+
+# --------------------------------------------------------------------------- C01
+PROPS["C01"] = dict(
+    functions=[
+        "<Value as Add/Sub/Mul/Div>, Value::try_cast_match, TryFrom<Value> for i64/f64",
+        "Vm::_run dispatch of ScalarInt, ScalarNil, Add, Sub, Mul, Equals, NotEquals, Less, LessOrEq, And, Or, Xor, "
+        "Not, Pop, CopyLast, SwapLast, SetGlobalVar, ReadLocalVar, SetLocalVar, GotoIfTrue, GotoIfFalse, "
+        "FunctionPointer, CallFunction, Return, Exit; instr_execution::{set_local,get_local,instr_set_var,"
+        "instr_call_function,push_call_frame,instr_return,instr_copy_last}; Vm::binary_op",
+    ],
+    bounds="layer 1: arithmetic operators per kind pair over {nil, integer, real}, all payloads (multiplication and "
+           "division only where both sides are integers/nil); layer 2: hand-assembled programs of 3-5 instructions "
+           "in the shapes the compiler emits (literal, literal, operator, store; locals at frame offsets 0 and 2; a "
+           "call with 1 or 2 arguments above a live caller local and its return; conditional jumps with concrete "
+           "truth value), every literal operand solver-chosen over all i64; small VM (stacks 8-12, 4 frames)",
+    outside="the compiler itself (compile() cannot be executed symbolically, DESIGN §0): which bytecode a card program "
+            "becomes is not decided here, so composition of features through the compiler, programs longer than 5 "
+            "instructions (whole-VM runs beyond ~5 dispatches do not close), symbolic control flow, loops, for-each, tables, strings and host calls in composed programs "
+            "are outside this check; integer overflow is C04's",
+    explanation="What the solver decides: for ALL literal values, the interpreter's arithmetic, comparison, boolean, "
+                "stack, local/global variable, jump and call/return instructions have the effect the card semantics "
+                "prescribe (operand order, numeric coercion, frame-relative locals, argument binding, caller frame "
+                "untouched, nil when nothing is returned). What it cannot decide: the quantifier over programs.",
+    assumptions=[
+        "hand-assembled bytecode in the shapes emitted by compiler.rs; opcode numbers taken from the crate (verif_hooks::op)",
+        "integer overflow excluded (C04); non-NaN reals",
+        "small VM built by the Vm::verif_new_small hook (no stdlib natives registered)",
+    ],
+    level_text="Bounded model checking with Kani/CBMC of the real value operators and of the real interpreter loop on "
+               "short compiler-shaped instruction sequences with solver-chosen literal operands (all i64): the "
+               "run-time half of 'compiled programs compute what the card language defines', per instruction and "
+               "for call/return, locals and jumps. The program dimension is enumerated, not solver-quantified.",
+    level_note="Trusted: Kani/CBMC; the reference semantics in harness/src/c01.rs; that the hand-assembled shapes "
+               "match what the compiler emits (the compiler is outside symbolic reach).",
+    design_ref="DESIGN.md §3 C01, §3.0",
+    cap=dict(quick=240, thorough=240),
+    harnesses=[
+        H("c01", "c01_value_add_int_int", bounds="Integer + Integer, all i64 pairs without overflow"),
+        H("c01", "c01_value_sub_int_int", "thorough", bounds="Integer - Integer"),
+        H("c01", "c01_value_mul_int_int", bounds="Integer * Integer"),
+        H("c01", "c01_value_add_int_nil", bounds="Integer + Nil (nil counts as 0)"),
+        H("c01", "c01_value_sub_nil_int", "thorough", bounds="Nil - Integer"),
+        H("c01", "c01_value_add_nil_nil", bounds="Nil + Nil = Nil"),
+        H("c01", "c01_value_add_int_real", bounds="Integer + Real, all payloads"),
+        H("c01", "c01_value_sub_real_int", "thorough", bounds="Real - Integer"),
+        H("c01", "c01_value_add_real_real", "thorough", bounds="Real + Real"),
+        H("c01", "c01_value_add_real_nil", "thorough", bounds="Real + Nil"),
+        H("c01", "c01_value_div_int_int", "thorough", bounds="Integer / Integer is the real quotient"),
+        _vm("c01", "c01_vm_add", bounds="[int x][int y][Add][SetGlobal 0][Exit], all x,y"),
+        _vm("c01", "c01_vm_sub", bounds="same, Sub (operand order)"),
+        _vm("c01", "c01_vm_mul", "thorough", bounds="same, Mul"),
+        _vm("c01", "c01_vm_equals", "thorough", bounds="same, Equals"),
+        _vm("c01", "c01_vm_not_equals", "thorough", bounds="same, NotEquals"),
+        _vm("c01", "c01_vm_less", bounds="same, Less (operand order)"),
+        _vm("c01", "c01_vm_less_or_eq", "thorough", bounds="same, LessOrEq"),
+        _vm("c01", "c01_vm_and", "thorough", bounds="same, And"),
+        _vm("c01", "c01_vm_or", "thorough", bounds="same, Or"),
+        _vm("c01", "c01_vm_xor", "thorough", bounds="same, Xor"),
+        _vm("c01", "c01_vm_locals_off0", "thorough", dispatches=5, bounds="[SetLocal 0][int y][SetLocal 1][ReadLocal 0][Exit] at frame offset 0"),
+        _vm("c01", "c01_vm_locals_off2", dispatches=5, bounds="same at frame offset 2 above two caller slots"),
+        _vm("c01", "c01_vm_local_overwrite", dispatches=4, bounds="[SetLocal 0][ReadLocal 0][ReadLocal 1][Exit] on existing locals"),
+        _vm("c01", "c01_vm_globals", dispatches=5, bounds="[SetGlobal 2][SetGlobal 0][ReadGlobal 2][ReadGlobal 1][Exit]"),
+        _vm("c01", "c01_vm_call_ret_arg0", "thorough", dispatches=5, bounds="call f(x,y) above a live caller slot; f returns its local 0"),
+        _vm("c01", "c01_vm_call_ret_arg1", dispatches=5, bounds="call f(x,y) above a live caller slot; f returns its local 1"),
+        _vm("c01", "c01_vm_call_no_return_value", dispatches=5, bounds="function ending in [ScalarNil][Return]"),
+        _vm("c01", "c01_vm_stack_ops", dispatches=5, bounds="[SwapLast][Pop][CopyLast][Not][Exit]"),
+        _vm("c01", "c01_vm_jump_if_true_taken", dispatches=3, bounds="GotoIfTrue on a truthy value"),
+        _vm("c01", "c01_vm_jump_if_true_not_taken", "thorough", dispatches=3, bounds="GotoIfTrue on 0"),
+        _vm("c01", "c01_vm_jump_if_false_taken", "thorough", dispatches=3, bounds="GotoIfFalse on 0"),
+        _vm("c01", "c01_vm_jump_if_false_not_taken", dispatches=3, bounds="GotoIfFalse on a truthy value"),
+        _vm("c01", "c01_vm_goto", "thorough", dispatches=3, bounds="Goto over an instruction"),
+    ],
+)
+
+# --------------------------------------------------------------------------- C04
+def _c04(name, tier="quick", dispatches=3, b=""):
+    return _vm("c04", name, tier, dispatches=dispatches, bounds=b)
+
+
+PROPS["C04"] = dict(
+    functions=[
+        "Vm::_run dispatch of every pushing instruction at a full value stack; SwapLast/Not/Add/Pop/Less on short "
+        "stacks; CallFunction at a full call stack; CallFunction/GetProperty/AppendTable/PopTable/NthRow/ReadUpvalue/"
+        "SetUpvalue/Len/Return on wrong-kind operands; the budget counter; InitTable/FunctionPointer/Closure under "
+        "tiny memory limits; <Value as Add/Sub/Mul/Div> over the full i64 range",
+        "instr_execution::{push_call_frame,instr_call_function,instr_return,read_upvalue,write_upvalue,instr_len}, "
+        "Vm::{stack_push,binary_op,init_table,init_function,init_closure}, RuntimeData::{init_*}, CaoLangAllocator::alloc",
+    ],
+    bounds="small VM: value stack capacities 2,3,4; call stack capacities 1,2; memory limits 0,16,40,64 bytes; "
+           "instruction budgets 0..=3; operands solver-chosen over all i64; programs of 2-4 instructions",
+    outside="compile-time totality (compile() cannot be executed symbolically; 'for all Modules M: compile(M) in "
+            "{Ok,Err}' is not decided here); native stack overflow on self-referencing tables (see known findings); "
+            "programs longer than 5 instructions; larger stacks/limits (the comparison against the capacity is the "
+            "same code at every size, which is stated, not proved)",
+    explanation="For every operand value the SAT solver shows that exhausting the value stack, the call stack, "
+                "the memory limit or the instruction budget, applying an instruction to a value of the wrong kind, "
+                "and integer overflow all end in Ok or the documented error value: Kani's panic, arithmetic-overflow, "
+                "bounds, unwrap/expect and unwinding checks are all enabled, so any reachable panic is a counterexample.",
+    assumptions=[
+        "hand-assembled bytecode (the compiler is outside symbolic reach); alloc::fmt::format stubbed (message text is not checked)",
+        "Kani/CBMC model the dev profile, where arithmetic overflow and debug assertions panic",
+    ],
+    level_text="Bounded model checking with Kani/CBMC of the interpreter's behaviour at its resource limits and on "
+               "wrong-kind operands: all operand values, small concrete stack sizes / limits / budgets; every "
+               "reachable panic, overflow, out-of-bounds access or failed unwrap in the driven code is a counterexample.",
+    level_note="Trusted: Kani/CBMC; sizes are concrete and small; compile-time totality is not covered.",
+    design_ref="DESIGN.md §3 C04",
+    cap=dict(quick=240, thorough=240),
+    harnesses=[
+        _c04("c04_arith_full_add", b="[int x][int y][Add][Exit] over all i64 x,y", dispatches=4),
+        _c04("c04_arith_full_sub", "thorough", b="same, Sub", dispatches=4),
+        _c04("c04_arith_full_mul", b="same, Mul", dispatches=4),
+        _c04("c04_arith_full_div", "thorough", b="same, Div", dispatches=4),
+        _c04("c04_stack_full_c3_scalar_int", b="ScalarInt on a full value stack (capacity 3)"),
+        _c04("c04_stack_full_c3_scalar_nil", "thorough", b="ScalarNil on a full stack"),
+        _c04("c04_stack_full_c3_copy_last", b="CopyLast on a full stack"),
+        _c04("c04_stack_full_c3_read_local", "thorough", b="ReadLocalVar on a full stack"),
+        _c04("c04_stack_full_c2_scalar_float", "thorough", b="ScalarFloat on a full stack (capacity 2)"),
+        _c04("c04_stack_full_c3_init_table", "thorough", b="InitTable on a full stack"),
+        _c04("c04_stack_full_c3_function_pointer", b="FunctionPointer on a full stack"),
+        _c04("c04_stack_full_c3_closure", "thorough", b="Closure on a full stack"),
+        _c04("c04_stack_full_c4_read_global", "thorough", b="ReadGlobalVar on a full stack (capacity 4)"),
+        _c04("c04_failed_push_then_clear_function", b="FunctionPointer fails to push on a full stack, then clear()"),
+        _c04("c04_failed_push_then_clear_closure", "thorough", b="Closure fails to push on a full stack, then clear()"),
+        _c04("c04_stack_edge_c2_swap_one", b="SwapLast with one value on a capacity-2 stack"),
+        _c04("c04_stack_edge_c3_swap_two", "thorough", b="SwapLast with two values on a capacity-3 stack"),
+        _c04("c04_stack_edge_c2_swap_empty", "thorough", b="SwapLast on an empty capacity-2 stack"),
+        _c04("c04_stack_edge_c2_not_empty", "thorough", b="Not on an empty stack"),
+        _c04("c04_stack_edge_c2_add_empty", b="Add on an empty stack"),
+        _c04("c04_stack_edge_c2_pop_empty", "thorough", b="Pop on an empty stack"),
+        _c04("c04_calls_full_1", b="CallFunction with call-stack capacity 1", dispatches=4),
+        _c04("c04_calls_full_2", "thorough", b="CallFunction with call-stack capacity 2 at depth 2", dispatches=4),
+        _c04("c04_wrong_kind_call", b="CallFunction on an integer"),
+        _c04("c04_wrong_kind_get_property", b="GetProperty on an integer"),
+        _c04("c04_wrong_kind_append", "thorough", b="AppendTable on an integer"),
+        _c04("c04_wrong_kind_pop_table", "thorough", b="PopTable on an integer"),
+        _c04("c04_wrong_kind_nth_row", "thorough", b="NthRow on an integer"),
+        _c04("c04_wrong_kind_read_upvalue", b="ReadUpvalue outside a closure"),
+        _c04("c04_wrong_kind_set_upvalue", "thorough", b="SetUpvalue outside a closure"),
+        _c04("c04_wrong_kind_len", "thorough", b="Len of an integer is defined"),
+        _c04("c04_return_at_top_level", b="Return with only the base frame"),
+        _c04("c04_tiny_budget", b="budgets 0..=3 on a 3-instruction program", dispatches=4),
+        _c04("c04_memory_limit_0_init_table", b="InitTable with memory limit 0"),
+        _c04("c04_memory_limit_64_init_table", "thorough", b="InitTable with memory limit 64"),
+        _c04("c04_memory_limit_16_function_pointer", "thorough", b="FunctionPointer with memory limit 16"),
+        _c04("c04_memory_limit_40_closure", "thorough", b="Closure with memory limit 40"),
+    ],
+)
+
+# --------------------------------------------------------------------------- C05
+PROPS["C05"] = dict(
+    functions=[
+        "CaoLangAllocator::{new,alloc,dealloc}; RuntimeData::{new,init_function,init_string,init_table,init_closure,"
+        "init_upvalue,free_object,clear,clear_objects,gc}; CaoLangString::{layout,drop}; CaoLangTable::with_capacity",
+    ],
+    bounds="allocator step: limit any value <= 2^40, counter any value <= limit, request sizes 1/8/72/4096 with "
+           "alignments 1/8/16 (collection threshold above the limit, so no collection inside the step); ledger: one "
+           "constructor (function, string of 4 bytes, table, closure, upvalue) under every memory limit 0..=255, "
+           "then clear(); collection: one function object, rooted on the value stack or not",
+    outside="the collection threshold policy (OutOfMemory with only garbage allocated, see known findings), heaps "
+            "with more than one object, table growth, allocation histories",
+    explanation="The solver decides for all counter/limit values that a successful allocation charges exactly size+align "
+                "and stays within the limit, a failed one charges nothing, dealloc refunds the charge; and for every "
+                "limit 0..=255 that what is accounted after a (possibly failing) constructor is what is outstanding "
+                "and returns to zero on clear().",
+    assumptions=["system allocator never fails (Kani default); Kani/CBMC model the dev profile"],
+    level_text="Bounded model checking with Kani/CBMC of the real allocator arithmetic (all counter and limit values) and "
+               "of the runtime's object constructors under all memory limits 0..=255, plus reclamation of one "
+               "unreachable object.",
+    level_note="Trusted: Kani/CBMC; one object per heap; the GC threshold policy is a recorded finding, not decided here.",
+    design_ref="DESIGN.md §3 C05",
+    cap=dict(quick=420, thorough=1800),
+    harnesses=[
+        H("c05", "c05_alloc_step_8_8", bounds="alloc(8 bytes, align 8) against any counter/limit"),
+        H("c05", "c05_alloc_step_72_8", bounds="alloc(72, 8)"),
+        H("c05", "c05_alloc_step_1_1", "thorough", bounds="alloc(1, 1)"),
+        H("c05", "c05_alloc_step_4096_16", "thorough", bounds="alloc(4096, 16)"),
+        H("c05", "c05_ledger_function", bounds="init_function under limit 0..=255, clear()", limits=_GROW0),
+        H("c05", "c05_ledger_string", bounds="init_string(4 bytes) under limit 0..=255, clear()", limits=_GROW0),
+        H("c05", "c05_ledger_table", bounds="init_table under limit 0..=255, clear()", limits=_GROW0),
+        H("c05", "c05_ledger_closure", "thorough", bounds="init_closure under limit 0..=255", limits=_GROW0),
+        H("c05", "c05_ledger_upvalue", "thorough", bounds="init_upvalue under limit 0..=255", limits=_GROW0),
+        H("c05", "c05_collect_unrooted", bounds="gc() reclaims an unreachable function object", limits=_GROW0),
+        H("c05", "c05_collect_rooted", bounds="gc() keeps a function object on the value stack", limits=_GROW0),
+    ],
+)
+
+# --------------------------------------------------------------------------- C10
+PROPS["C10"] = dict(
+    functions=[
+        "bytecode::{write_to_vec,read_from_bytes,encode_str,decode_str}, instr_execution::{decode_value,read_str}, "
+        "Instruction::span / TryFrom<u8> for Instruction",
+    ],
+    bounds="operand round-trips for i64, u32, i32, u8, f64 (all bit patterns) and Handle at byte offsets 0..=3; "
+           "string round-trips for lengths 0,1,3,5 (all ASCII contents) at offsets 0..=3; the string decoder on "
+           "arbitrary buffers of up to 8 bytes; the span table for every byte 0..=255",
+    outside="whole-artefact well-formedness of compiled programs (jump targets, labels, trace keys, variable ids): "
+            "that quantifies over the compiler's input and compile() cannot be executed symbolically; strings longer "
+            "than 5 bytes (in particular the 256-byte read window of read_str); non-ASCII strings",
+    explanation="The emitter's operand/str encoders and the interpreter's decoders are shown inverse for all values "
+                "at all small offsets, and the decoder total on untrusted bytes - the conditions under which the "
+                "unchecked decode in the interpreter is memory-safe on compiler output. The property's quantifier over "
+                "all compiled programs is NOT decided.",
+    assumptions=["ASCII strings of length <= 5; Kani/CBMC model the dev profile"],
+    level_text="Bounded model checking with Kani/CBMC of the real encode/decode pairs used by compiler and interpreter "
+               "(all operand values, small strings, unaligned offsets) and of the opcode span table over all 256 bytes. "
+               "Only the value-level half of C10 is decided; the for-all-programs half is outside.",
+    level_note="Trusted: Kani/CBMC. The check does not look at any compiler output.",
+    design_ref="DESIGN.md §3 C10",
+    cap=dict(quick=300, thorough=1200),
+    harnesses=[
+        H("c10", "c10_roundtrip_ints", bounds="i64,u32,i32,u8 at offset 0..=3; truncated input rejected"),
+        H("c10", "c10_roundtrip_float_handle", bounds="f64 bits and Handle at offset 0..=3"),
+        H("c10", "c10_roundtrip_str_0", "thorough", bounds="empty string"),
+        H("c10", "c10_roundtrip_str_1", "thorough", bounds="1-byte strings"),
+        H("c10", "c10_roundtrip_str_3", bounds="3-byte ASCII strings at offset 0..=3"),
+        H("c10", "c10_roundtrip_str_5", "thorough", bounds="5-byte ASCII strings"),
+        H("c10", "c10_decode_str_total_6", bounds="decode_str on any 0..=6 bytes"),
+        H("c10", "c10_decode_str_total_8", "thorough", bounds="decode_str on any 0..=8 bytes"),
+        H("c10", "c10_span_table", bounds="span for every byte value"),
+    ],
+)
+
+# --------------------------------------------------------------------------- C11
+PROPS["C11"] = dict(
+    functions=[
+        "<HandleTable<T> as Serialize>::serialize, HandleTableVisitor::visit_map, <CaoHashMap<K,V> as Serialize>::serialize, "
+        "HashMapVisitor::visit_map (capacity from size_hint, power-of-two padding, insert/growth during load)",
+    ],
+    bounds="0..=3 entries with solver-chosen keys (non-zero u32 handles / u8) and values, size_hint exact, zero "
+           "(under-stated) or 8 (over-stated); an in-memory serde data-model back end written in the harness",
+    outside="the JSON/YAML/CBOR/bincode codecs (third-party parsers), the derived serde of Module/Card/"
+            "CaoCompiledProgram, byte-identical recompilation, OwnedValue conversion, size_hint = None (128-slot table)",
+    explanation="de(ser(m)) has the same key-to-value content and length, for every key/value choice and every "
+                "size_hint, for the two hand-written map (de)serializers of this repository.",
+    assumptions=["serde's generic plumbing as compiled; Kani/CBMC model the dev profile"],
+    level_text="Bounded model checking with Kani/CBMC of the hand-written Serialize/Deserialize impls of HandleTable "
+               "and CaoHashMap through the real serde traits, with symbolic entries and size hints. The wire formats "
+               "and program-level round trips of the property are outside this technique's reach here.",
+    level_note="Trusted: Kani/CBMC; the in-memory serde back end in harness/src/c11.rs.",
+    design_ref="DESIGN.md §3 C11",
+    cap=dict(quick=420, thorough=1800),
+    harnesses=[
+        H("c11", "c11_handle_table_n2_exact", bounds="HandleTable, 2 entries, exact size_hint"),
+        H("c11", "c11_handle_table_n2_zero_hint", bounds="HandleTable, 2 entries, size_hint Some(0)"),
+        H("c11", "c11_handle_table_n2_over_hint", "thorough", bounds="HandleTable, 2 entries, size_hint Some(8)"),
+        H("c11", "c11_handle_table_n1_exact", "thorough", bounds="HandleTable, 1 entry"),
+        H("c11", "c11_handle_table_n0_exact", bounds="HandleTable, empty"),
+        H("c11", "c11_handle_table_n3_exact", "thorough", bounds="HandleTable, 3 entries (growth during load)"),
+        H("c11", "c11_hash_map_n2_exact", bounds="CaoHashMap, 2 entries, exact size_hint", limits=_GROW1),
+        H("c11", "c11_hash_map_n2_zero_hint", "thorough", bounds="CaoHashMap, 2 entries, size_hint Some(0)", limits=_GROW1, heavy=True),
+        H("c11", "c11_hash_map_n2_over_hint", "thorough", bounds="CaoHashMap, 2 entries, size_hint Some(8)", limits=_GROW1),
+        H("c11", "c11_hash_map_n1_exact", bounds="CaoHashMap, 1 entry", limits=_GROW1),
+        H("c11", "c11_hash_map_n0_exact", "thorough", bounds="CaoHashMap, empty", limits=_GROW1),
+        H("c11", "c11_hash_map_n3_exact", "thorough", bounds="CaoHashMap, 3 entries", limits=_GROW1, heavy=True),
+    ],
+)
+
+# --------------------------------------------------------------------------- C18
+def _c18(name, tier="quick", dispatches=2, b="", **kw):
+    return _vm("c18", name, tier, dispatches=dispatches, bounds=b, **kw)
+
+
+PROPS["C18"] = dict(
+    functions=[
+        "<fn(&mut Vm<Aux>, T1..T4) -> Result as VmFunction<Aux>>::call for arities 1..=4, traits::conversion_error, "
+        "TryFrom<Value> for i64/f64/bool/Value/Nilable<i64>/&CaoLangTable, Vm::{register_native_function,"
+        "_register_native_function,stack_pop,stack_push,run_function}, instr_execution::{execute_call_native,call_native}",
+    ],
+    bounds="wrappers: arities 1..=4 with parameter types i64, f64, bool, Value, Nilable<i64>, &CaoLangTable; stack "
+           "values solver-chosen per concrete kind tuple over {nil, integer, finite real}; one CallNative dispatch "
+           "(result, native error, unknown native, reserved name); one re-entrant call: native -> run_function(script "
+           "function of arity 1 returning its argument)",
+    outside="message text of InvalidArgument (alloc::fmt::format is stubbed), string/table arguments, stdlib "
+            "wrappers, natives reached through dynamic call, recursion through another native, arities > 4",
+    explanation="For all argument values the j-th declared parameter receives the documented conversion of the j-th "
+                "pushed value, exactly k values are consumed, values below are untouched, the result becomes the "
+                "value of the call, a native error becomes TaskFailure{name}, and after a re-entrant run_function the "
+                "caller's stacks are as before plus the result.",
+    assumptions=["alloc::fmt::format stubbed (parameter number in the message not checked); small VM hook constructor"],
+    level_text="Bounded model checking with Kani/CBMC of the real typed native-function wrappers (arities 1-4, all "
+               "argument values per kind tuple), of CallNative dispatch and of one re-entrant script call.",
+    level_note="Trusted: Kani/CBMC; kinds enumerated; message text outside.",
+    design_ref="DESIGN.md §3 C18",
+    cap=dict(quick=300, thorough=1200),
+    harnesses=[
+        _c18("c18_wrapper2_int_int", b="(i64,f64) from (Integer,Integer)", dispatches=0),
+        _c18("c18_wrapper2_real_int", b="(i64,f64) from (Real,Integer)", dispatches=0),
+        _c18("c18_wrapper2_nil_real", "thorough", b="(i64,f64) from (Nil,Real)", dispatches=0),
+        _c18("c18_wrapper2_int_nil", "thorough", b="(i64,f64) from (Integer,Nil)", dispatches=0),
+        _c18("c18_wrapper3_int_int_int", b="(i64,bool,Value) from three integers", dispatches=0),
+        _c18("c18_wrapper3_real_nil_int", "thorough", b="(i64,bool,Value) from (Real,Nil,Integer)", dispatches=0),
+        _c18("c18_wrapper3_nil_real_real", "thorough", b="(i64,bool,Value) from (Nil,Real,Real)", dispatches=0),
+        _c18("c18_wrapper4_ints", b="four i64 parameters in declaration order", dispatches=0),
+        _c18("c18_wrapper1_nilable_nil", b="Nilable<i64> from Nil", dispatches=0),
+        _c18("c18_wrapper1_nilable_int", "thorough", b="Nilable<i64> from Integer", dispatches=0),
+        _c18("c18_wrapper1_nilable_real", "thorough", b="Nilable<i64> from Real", dispatches=0),
+        _c18("c18_conversion_failure_int", b="&CaoLangTable from Integer: InvalidArgument, native not called", dispatches=0),
+        _c18("c18_conversion_failure_nil", "thorough", b="&CaoLangTable from Nil", dispatches=0),
+        _c18("c18_call_native_result", b="[CallNative f][Exit]: result is the value of the call", dispatches=2),
+        _c18("c18_call_native_error", b="native error surfaces as TaskFailure{name}", dispatches=2),
+        _c18("c18_call_native_missing_and_reserved", b="unknown native; reserved '__' prefix", dispatches=2),
+        _c18("c18_reenter_script_function", "thorough", b="native -> run_function(script fn) -> back", dispatches=4,
+             limits={r"vm::Vm::<.*>::_run$": 1, r"vm::Vm::<.*>::run_function$": 0}),
+    ],
+)
+
+# --------------------------------------------------------------------------- C07
+_C07_LIM = dict(_GROW0)
+_C07_LIM.update({
+    r"^<cao_lang::prelude::Value as std::cmp::PartialEq>::eq$": 0,
+    r"^<cao_lang::prelude::Value as std::hash::Hash>::hash::<.*>$": 0,
+    r"^<cao_lang::vm::runtime::cao_lang_object::CaoLangObject as std::(cmp::PartialEq|hash::Hash)>::\w+(::<.*>)?$#*": 1,
+    r"hash_map::CaoHashMap::<.*>::find_ind::<.*>#0": 13,
+})
+PROPS["C07"] = dict(
+    functions=[
+        "CaoLangTable::{with_capacity,insert,remove,append,pop,len,nth_key,get (Deref to CaoHashMap)}, "
+        "CaoHashMap<Value,Value,AllocProxy>::{insert,get,get_mut,remove,contains,grow,find_ind}, <Value as Hash/Eq>",
+    ],
+    bounds="catalogue of 5 pre-states built with concrete integer keys in an insertion order different from key "
+           "order (empty; 1; 3; array-like 0,1,2 plus key 4; 5 entries = one below the growth threshold of the "
+           "initial 8 buckets) x one operation (set / remove / append / pop / pop+append) with solver-chosen "
+           "i64 key and value x one solver-chosen observation (get by any i64 key, len, nth_key at any position); "
+           "nil and finite non-zero real keys on a one-entry table",
+    outside="sequences longer than pre-state + one (two) operations (two symbolic operations on the real table do "
+            "not close), string and table keys, aliasing through VM variables, the VM instructions, for-each",
+    explanation="Single steps from catalogued pre-states against an insertion-ordered association list written from "
+                "the property text; keys, values and the observed key/position are solver variables.",
+    assumptions=["tables owned by a large-limit AllocProxy without runtime (no collection can trigger)"],
+    level_text="Bounded model checking with Kani/CBMC of the real CaoLangTable over the real "
+               "CaoHashMap<Value,Value>: one set/remove/append/pop from each catalogued pre-state with all i64 keys "
+               "and values, observed through get/len/nth_key with solver-chosen arguments.",
+    level_note="Trusted: Kani/CBMC; the catalogue is the bound; histories are not explored.",
+    design_ref="DESIGN.md §3 C07",
+    cap=dict(quick=600, thorough=2400),
+    harnesses=[H("c07", n, t, bounds=b, limits=_C07_LIM) for (n, t, b) in [
+        ("c07_set_pre0", "quick", "empty table + set(any,any)"),
+        ("c07_set_pre2", "quick", "3 entries + set(any,any) (overwrite or new key)"),
+        ("c07_set_pre4_growth", "thorough", "5 entries + set: growth 8->12"),
+        ("c07_remove_pre2", "quick", "3 entries + remove(any)"),
+        ("c07_remove_pre4", "thorough", "5 entries + remove(any)"),
+        ("c07_append_pre0", "thorough", "empty + append"),
+        ("c07_append_pre3_gap", "quick", "keys 0,1,2,4 + append: smallest unused key >= length"),
+        ("c07_pop_pre0", "thorough", "pop on empty"),
+        ("c07_pop_pre2", "quick", "3 entries + pop"),
+        ("c07_pop_pre3", "thorough", "keys 0,1,2,4 + pop"),
+        ("c07_pop_then_append_pre3", "quick", "pop then append reuses the freed index"),
+        ("c07_nil_and_real_keys", "thorough", "nil key and any finite non-zero real key"),
     ]],
 )
